@@ -21,6 +21,11 @@ class SearchLeg(T.TravLeg):
         for q, a, x in zip(case["queries"], obs["answers"], obs["extra"]):
             t, uni, st, attr, val = q
             tr = x["trav"]
+            if uni is not None and a[0] == "id" and a[1] not in snap["uverts"][uni]:
+                return [f"{t}(uni={uni}, start={st}, ...) returned vertex {a[1]}, which is outside the universe (members {snap['uverts'][uni]})"]
+            if uni is not None and snap["uverts"][uni] and st not in snap["uverts"][uni] and a[0] != "raise":
+                return [f"{t}(uni={uni}, start={st}, ...) answered {a} although the start vertex is not a member of the universe "
+                        f"(members {snap['uverts'][uni]}; documented: ValueError) - there is no listing from that start to be first in"]
             if tr[0] != "list":
                 continue
             first = next((v for v in tr[1] if v is not None and x["m"][v]), None)
